@@ -155,6 +155,26 @@ fn make_ds(inst: &str, pid: &str, seed: u64) -> (InMemDicomObject, SentDs) {
     )
 }
 
+/// Project a DIMSE response received from the tool: one command PDV, decoded as Implicit VR LE.
+fn rsp_event(kind: &str, req: usize, msgid: u16, pc: u8, data: &[PDataValue]) -> Value {
+    let mut ev = json!({"ev": kind, "req": req, "msgid": msgid, "npdv": data.len(), "pc_ok": false, "is_cmd": false,
+        "field": 0, "msgid_resp": 0, "status": 65535, "dstype": 0, "decoded": false});
+    if let Some(v) = data.first() {
+        ev["pc_ok"] = json!(v.presentation_context_id == pc);
+        ev["is_cmd"] = json!(v.value_type == PDataValueType::Command && v.is_last);
+        let ts = dicom_transfer_syntax_registry::entries::IMPLICIT_VR_LITTLE_ENDIAN.erased();
+        if let Ok(Ok(obj)) = catch(|| InMemDicomObject::read_dataset_with_ts(v.data.as_slice(), &ts)) {
+            ev["decoded"] = json!(true);
+            let g = |t| obj.element(t).ok().and_then(|e| e.to_int::<u16>().ok()).unwrap_or(65535);
+            ev["field"] = json!(g(tags::COMMAND_FIELD));
+            ev["msgid_resp"] = json!(g(tags::MESSAGE_ID_BEING_RESPONDED_TO));
+            ev["status"] = json!(g(tags::STATUS));
+            ev["dstype"] = json!(g(tags::COMMAND_DATA_SET_TYPE));
+        }
+    }
+    ev
+}
+
 fn main() {
     quiet_panics();
     let args = args_map();
@@ -299,7 +319,9 @@ fn main() {
                             }
                             if last && !dead {
                                 match assoc.receive() {
-                                    Ok(Pdu::PData { .. }) => {}
+                                    Ok(Pdu::PData { data }) => {
+                                        tr.emit(&rsp_event("store_rsp", sent.len(), msgid, pc, &data));
+                                    }
                                     _ => dead = true,
                                 }
                             }
@@ -315,7 +337,9 @@ fn main() {
                             dead = true;
                         } else {
                             match assoc.receive() {
-                                Ok(Pdu::PData { .. }) => {}
+                                Ok(Pdu::PData { data }) => {
+                                    tr.emit(&rsp_event("echo_rsp", 0, msgid, pc_echo, &data));
+                                }
                                 _ => dead = true,
                             }
                         }
